@@ -363,7 +363,7 @@ def gen_project(R, bvmods, today, *, eol_choices=("\n",), filler="plain", legacy
             k = R.randint(1, len(pats) - 1)
             base, dot, ext = fn.rpartition(".")
             entries.append((fn, pats[:k]))
-            entries.append((base + ".*", pats[k:]))
+            entries.append((R.choice([base + ".*", "./" + fn, "./" + fn]), pats[k:]))
         else:
             entries.append((key, pats))
         per_file[fn] = pats
@@ -389,8 +389,9 @@ def gen_project(R, bvmods, today, *, eol_choices=("\n",), filler="plain", legacy
     order = []
     allnames = fnames + [proj.cfg_name]
     for key, pats in entries:
-        matched = [n for n in allnames if (n == key or (("*" in key or "?" in key) and
-                                                       fnmatch.fnmatchcase(n, key) and n.count("/") == key.count("/")))]
+        ckey = key[2:] if key.startswith("./") else key
+        matched = [n for n in allnames if (n == ckey or (("*" in ckey or "?" in ckey) and
+                                                        fnmatch.fnmatchcase(n, ckey) and n.count("/") == ckey.count("/")))]
         if not matched:
             return None, "glob-matches-nothing"
         for n in sorted(matched):
@@ -759,6 +760,7 @@ def reorder_entries(proj, perm, R=None):
     order = []
     names = [n for n in proj.files]
     for key, _p in q.entries:
+        key = key[2:] if key.startswith("./") else key
         for n in sorted(names):
             if (n == key or (("*" in key or "?" in key) and fnmatch.fnmatchcase(n, key) and n.count("/") == key.count("/"))) \
                     and n not in order:
